@@ -255,7 +255,11 @@ def mon_c05(cases):
                     # onto the cached key, so the next encrypt does notice a revoked INTERMEDIATE key (the finding concerns its parent)
                     yield dict(what="record written under an intermediate key revoked more than one interval ago", case=ci, op=i, finding=None)
                 ikp = ob.get("ikparent")
-                if ikp and rv["id"] == ikp[0] and rv["created"] == ikp[1] and t > rv["at"] + 2 * p["RCI"] and stamp > ikp[1] and stamp > ob["pc"]:
+                # "provided a key with a later creation stamp can be created": a later system-key stamp is available, and either a later
+                # intermediate-key stamp is too or this very operation created (and stored) the intermediate key it used
+                made_here = any(e["k"] == "MStore" and (e.get("a") or [None])[0] == ob["pid"] and (e.get("a") or [None, None])[1] == ob["pc"]
+                                and (e.get("a") or [None])[-1] is True for e in ev_list(ob))
+                if ikp and rv["id"] == ikp[0] and rv["created"] == ikp[1] and t > rv["at"] + 2 * p["RCI"] and stamp > ikp[1] and (stamp > ob["pc"] or made_here):
                     f = "C05-IK" if finding_ik(c, ctx, i, sid, ob["pid"], ob["pc"], t, p["RCI"]) else (
                         "C05-DUP" if finding_dup(ob, ob["pid"]) or (ob["pid"], ob["pc"]) in born_bad else None)
                     yield dict(what="record written under an intermediate key whose system key was revoked more than two intervals ago", case=ci, op=i, finding=f)
